@@ -41,8 +41,8 @@ PROPS = {
     'C17': dict(facts=['Numbers', 'Calls', 'Translated'], keys=['C17'], tkeys=['T:phase4-valign', 'T:phase4-packright', 'T:phase4-sinkcoloring', 'T:assignY', 'T:phase5', 'T:output', 'T:phase4-bk', 'T:pipeline-sizes'], suites=[('scale', 2000, 50000), ('e2e', 800, 10000)], partial=[]),
     'C18': dict(facts=['Shared'], keys=['C18own', 'C18same', 'C18nonvacuous'], tkeys=['T:monitor'],
                 suites=[('history', 1500, 30000), ('monitor', 1000, 20000), ('e2e', 1000, 30000), ('c18bk', 1500, 30000), ('e2e-dec', 400, 8000)], partial=[]),
-    'C19': dict(facts=['Geom'], keys=['C19'], tkeys=[], suites=[('c19', 3000, 100000), ('c19-a', 2000, 100000), ('c19-long', 300, 6000)],
+    'C19': dict(facts=['Geom', 'TranslatedGeom'], keys=['C19'], tkeys=[], suites=[('c19', 3000, 100000), ('c19-a', 2000, 100000), ('c19-long', 300, 6000)],
                 partial=['C19_shortest: that the returned path is shortest is decided per run by an independent search (visibility-graph Dijkstra) whose result the driver re-validates exactly (containment checker, certified square-root bounds); no theorem says the funnel algorithm is correct']),
-    'C20': dict(facts=['Geom'], keys=['C20', 'C20roots'], tkeys=['K:c20-contained'], suites=[('c20', 1500, 40000), ('c20-shape', 1500, 30000), ('solve', 3000, 100000)],
+    'C20': dict(facts=['Geom', 'TranslatedGeom'], keys=['C20', 'C20roots'], tkeys=['K:c20-contained'], suites=[('c20', 1500, 40000), ('c20-shape', 1500, 30000), ('solve', 3000, 100000)],
                 partial=['C20_termination: termination of FitSpline/tryfit is observed under a watchdog only', 'C20_roots: the root finder is checked against exactly validated ground truth, not proved']),
 }
